@@ -285,17 +285,29 @@ claim("C09",
 
 # ---- later extensions of the specification (round 2), appended to the claims they serve ---------------------------------
 _ADD = {
-    "C02": "spec/Prism3.tla adds extruded non-convex lattice polygons (named combs, saw, spiral, zig-zag, star of "
+    "C02": "Polyhedron copies of the convex lattice polytopes of spec/Convex3.tla (faces with 3..n corners) are replayed against "
+           "the same exact records as C01. spec/Prism3.tla adds extruded non-convex lattice polygons (named combs, saw, spiral, zig-zag, star of "
            "spec/MC_Polygon2.tla and randomly grown ones) with caps cut into the triangles of the growth triangulation: exact "
            "measures by Fubini from the polygon's exact moments, and the T1 theorem that the divergence-theorem sums over the "
            "mesh's surface triangles equal them.",
-    "C03": "The projection that is compared after every transition also calls the queries that take arguments "
+    "C03": "SetCentroid has the target 'nudge' (a move that is small only in numpy's default sense); bases include nanometre-sized and "
+           "vertex-mean-zero shapes. The projection that is compared after every transition also calls the queries that take arguments "
            "(compute_form_factor_amplitude at fixed q, distance_to_surface at fixed angles); ShapeMachine has the action "
            "SetCoreSize (resizing the live core that a rounded shape hands out); long random walks over the TLC state graph "
            "are replayed in addition to one test per transition.",
     "C04": "The named many-cornered polygons of spec/MC_Polygon2.tla (6-16 vertices, every relabelling) go through the same T1 "
            "theorems and the same replay.",
-    "C05": "Rounded solids with general convex cores: exact squared point-polytope distances from spec/Convex3.tla (DistSq) on "
+    "C01": "Placements include a one-milliradian tilt and micrometre / nanometre copies a few diameters from the origin.",
+    "C07": "The T3 traces include a nearly-flat-ridge family (the Lifted universe: nine facets for every positive push; objects "
+           "built with a push of 1e-3 .. 1e-8 of the edge are validated against the lattice member of the family).",
+    "C10": "The ellipse perimeter has two rigorous enclosures (Gauss-Kummer series and Gauss's AGM, tight for needles up to "
+           "aspect ratio 2000) that must intersect; eccentricity is compared on e^2.",
+    "C11": "Named cores with one extreme feature each: Knife (dihedral 0.76 degrees), Blade, Slab, Spike.",
+    "C13": "Circle centres must lie in the polygon's plane.",
+    "C15": "Non-planar inputs are also offered at micrometre scale.",
+    "C16": "Single queries also run on a nanometre-sized base.",
+    "C05": "ConvexPolyhedron is also queried with the origin between centroid and farthest vertex, at the centroid and at a vertex, "
+           "on slender asymmetric solids (Spike, SkewSpike). Rounded solids with general convex cores: exact squared point-polytope distances from spec/Convex3.tla (DistSq) on "
            "random lattice cores and on named cores where sharp ridges meet nearly flat facets (Blade, Slab, Ridge).",
     "C06": "The named many-cornered polygons of spec/MC_Polygon2.tla are included with every relabelling.",
     "C09": "spec/Prism3.tla: prisms over named and grown non-convex lattice polygons whose caps are single non-convex faces are "
@@ -303,7 +315,7 @@ _ADD = {
            "must do for the shifted labelling what it does for the listed one). spec/AlgPolygon.tla transcribes polytri's ear "
            "clipping; T1_Triangulate proves on every relabelling of every polygon state that the loop terminates and tiles (a "
            "wrong loop variant is refuted as a canary), and what the code returns for placed polygons is validated as a tiling.",
-    "C12": "After the first evaluation the volume setter doubles the size and the transform is evaluated again against the same "
+    "C12": "Spheres of spec/Curved.tla at |q| R in {1e-3 .. 1} by the alternating series of (sin x - x cos x)/x^3. After the first evaluation the volume setter doubles the size and the transform is evaluated again against the same "
            "exact record (F'(q/2) = 8 F(q)).",
     "C14": "Placements include edges leaning 4e-6 rad from the axes and a nanometre-sized copy.",
     "C17": "spec/Family523.tla decides the 523 family exactly over Q(sqrt5) (plane set from the symmetry description with the "
